@@ -416,6 +416,7 @@ def outputs_case(case: dict[str, Any], root: str) -> dict[str, Any]:
     for fx, name in ((case["builtins"], "builtins.pyi"), (case["typing"], "typing.pyi")):
         if fx:
             shutil.copy(os.path.join(REPO, "test-data", "unit", fx), os.path.join(src, name))
+            os.utime(os.path.join(src, name), (1_000_000, 1_000_000))
     tick = 1000
     for rel, txt in [("main", text)] + sorted(case["files"].items()):
         p = os.path.join(src, rel)
@@ -424,12 +425,26 @@ def outputs_case(case: dict[str, Any], root: str) -> dict[str, Any]:
             f.write(txt)
         tick += 1
         os.utime(p, (1_000_000 + tick * 10,) * 2)
+    for dp, dns, _ in os.walk(src):          # namespace packages: the directory's mtime is the module's mtime
+        for dn in dns:
+            os.utime(os.path.join(dp, dn), (1_000_000, 1_000_000))
     kw = dict(sources=[("main", "__main__")], user_mods="*", record=False, extra_opts={"cli_args_nosrc": flag_list})
     os.environ["VERIF_NO_ROUNDTRIP"] = "1"
     cold = W.run_build(src, cache_dir=cache, **kw)
     if cold.get("crash") or cold["status"] in (3, 4):
         out["skipped"] = "harness cannot run this case: " + (cold.get("crash") or "")[-200:]
         return out
+    # the cache records the cold build wrote, with the (equally long) scratch path blanked out
+    import hashlib
+    recs: dict[str, str] = {}
+    blank = root.encode()
+    for dp, _, fns in os.walk(cache):
+        for fn in fns:
+            if fn in (".gitignore", "CACHEDIR.TAG") or fn.endswith(".verif_objs.json"):
+                continue
+            with open(os.path.join(dp, fn), "rb") as f:
+                recs[os.path.relpath(os.path.join(dp, fn), cache)] = hashlib.sha256(f.read().replace(blank, b"@" * len(blank))).hexdigest()[:16]
+    out["records"] = recs
     warm = W.run_build(src, cache_dir=cache, tick=cold["tick"], **kw)
     out["cold"] = [cold["status"], cold["messages"]]
     out["warm"] = [warm["status"], warm["messages"], (warm.get("crash") or "")[-300:]]
